@@ -52,6 +52,7 @@ THEOREMS = [
     "Nix.C11.C11_rw_then_ro",
     "Nix.C11.C11_default_decision",
     "Nix.C11.C11_changes_only",
+    "Nix.C11.C11_h5_layer_passes_write_errors_on",
 ]
 ASSUMPTIONS = [
     "nixio has no write guard of its own: that libhdf5 refuses every write through a handle opened ACC_RDONLY is "
@@ -70,7 +71,8 @@ TRUSTED_EXTRA = ["harness/extract/fileconst.py renders FILE_FORMAT, HDF_FF_VERSI
                  "map_file_mode chain, the can_write comparison, the can_read condition, the _check_header mode "
                  "dispatch and the id threshold, the _create_header call order, and the shape of File.__init__ / "
                  "File.open (default mode, guards, create-or-open condition, rebound mode, h5f.create / h5f.open with "
-                 "flags=map_file_mode(mode) outside any try, ordered tail)"]
+                 "flags=map_file_mode(mode) outside any try, ordered tail); and the list of `except` clauses in nixio/hdf5/*.py "
+                 "that never raise, with whether the guarded block writes (Generated/H5Handlers.lean)"]
 
 VALID_ID = "017d7764-173b-4716-a6c2-45f6d37ddb52"
 T_BUILD = 1500000000       # controlled clock while files are generated
